@@ -65,10 +65,12 @@ namespace nmtools::view
         template <typename size_type>
         constexpr auto operator()(size_type index) const
         {
+            // NOTE: convert index and step before the arithmetic, the (unsigned) index type
+            // must not take over: negative start or step would wrap around
             if constexpr (is_none_v<step_t>)
-                return static_cast<element_type>(start) + index;
+                return static_cast<element_type>(static_cast<element_type>(start) + static_cast<element_type>(index));
             else
-                return static_cast<element_type>(start) + (index * step);
+                return static_cast<element_type>(static_cast<element_type>(start) + (static_cast<element_type>(index) * static_cast<element_type>(step)));
         } // operator()
     }; // arange_t
     
